@@ -19,14 +19,14 @@ import os
 from vlib import common as C
 
 SIMPLE = ["hash", "fit", "iga", "ide", "mati", "matu", "dist"]
-BIG = ["imep", "team", "pop", "summ", "cache"]
-REST = {"fit": "-"}          # unread rest after load (hex); default "0a" (the final newline)
+BIG = ["imep", "team", "pop", "summ", "cache", "lam"]
+REST = {"fit": "-", "lam": None}          # unread rest after load (hex); default "0a" (the final newline)
 
 COUNTS = {   # objects per type: (quick, thorough)
     "hash": (1000, 20000), "fit": (12000, 300000), "iga": (6000, 150000), "ide": (6000, 150000),
     "mati": (3000, 60000), "matu": (3000, 60000), "dist": (4000, 80000),
     "imep": (9000, 200000), "team": (1500, 30000), "pop": (1500, 30000), "summ": (3000, 60000),
-    "cache": (3000, 60000),
+    "cache": (3000, 60000), "lam": (1200, 24000),
 }
 NEEDS_CTX = {"imep", "team", "pop", "summ"}
 
@@ -58,7 +58,8 @@ def parse_obj(line):
         for kv in parts[3].split(","):
             k, v = kv.split("=")
             tags[k] = int(v) if v.lstrip("-").isdigit() else v
-    return {"type": head[1], "ints": " ".join(head[2:]), "hex": parts[1], "verdict": parts[2], "tags": tags}
+    return {"type": head[1], "ints": " ".join(head[2:]), "hex": parts[1], "verdict": parts[2], "tags": tags,
+            "own_ctx": parts[4] if len(parts) > 4 else None}
 
 
 def parse_tags(txt):
@@ -85,6 +86,8 @@ def gen_objects(exe, seed, n, typ, want_pending=False):
         elif l.startswith("obj "):
             o = parse_obj(l)
             o["ctx"] = ctx if o["type"] in NEEDS_CTX else ""
+            if o.get("own_ctx"):
+                o["ctx"] = o["own_ctx"]
             if o["type"] == "cache":
                 o["ctx"] = o["ints"].split()[0]          # the fresh target has the same number of bits
             objs.append(o)
@@ -158,7 +161,9 @@ def run(chk, replay=None):
             chk.seen((typ, o["hex"]), nontrivial=len(o["hex"]) > 8)
             chk.count("type:" + typ)
             for tk, tv in o["tags"].items():
-                if isinstance(tv, int):
+                if tk in ("kind", "bits", "layers", "members"):
+                    chk.count(f"{typ}.{tk}:{tv}")
+                elif isinstance(tv, int):
                     b = "0" if tv == 0 else "1" if tv == 1 else "2-9" if tv < 10 else "10-99" if tv < 100 else "100+"
                     chk.count(f"{typ}.{tk}:{b}")
             rep = {"gen": gen, "index": i, "type": typ, "object": o["ints"][:2000], "bytes_hex": o["hex"][:4000]}
